@@ -670,6 +670,51 @@ def mutcb(tier, seed):
     return viol, cov
 
 
+def shifty(tier, seed):
+    """`drain` / `splice` with a `RangeBounds` whose answers change between calls (whatever is validated must be what is
+    used), and growth with element types from 1 to 70 000 bytes (harness/src/mutcb.rs, `--shifty`), both profiles"""
+    import run as RUN
+    viol = []
+    n = 0
+    for mode in ("debug", "release"):
+        try:
+            p = subprocess.run([RUN.harness_bin(mode), "--shifty"], capture_output=True, text=True, errors="replace", timeout=60)
+            rc, so, se = p.returncode, p.stdout, p.stderr
+        except subprocess.TimeoutExpired as e:
+            rc, so, se = "hang (60 s)", (e.stdout or b"").decode(errors="replace") if isinstance(e.stdout, bytes) else (e.stdout or ""), ""
+        lines = so.split("\n")
+        tot = [l for l in lines if l.startswith("SHIFTY ")]
+        if tot:
+            n += int(tot[-1].split()[1])
+        for l in [l for l in lines if l.startswith("MISMATCH ")][:4]:
+            scen, what = l[9:].split(" :: ", 1)
+            viol.append({"signature": "shifty-" + scen.split()[0], "concrete": True,
+                         "payload": {"what": "range bounds that answer differently each time they are asked / growth of a vector of wide elements: the outcome is none that Vec produces for the answers given",
+                                     "profile": mode, "scenario": scen, "observed": what[:1500], "replay": "build/harness-target/%s/harness --shifty" % mode}})
+        if not tot or (rc not in (0, 1)):
+            last = [l for l in lines if l.startswith("SCEN ")]
+            viol.append({"signature": "shifty-crash", "concrete": True,
+                         "payload": {"what": "the battery crashed or hung in (or shortly after) the scenario named", "profile": mode, "rc": rc, "scenario": last[-1][5:] if last else "?",
+                                     "stderr": se[-400:], "replay": "build/harness-target/%s/harness --shifty" % mode}})
+    cov = {"evaluations": n, "distinct_nontrivial": n, "traces_validated_against_impl": n if not viol else 0, "shifty_scenarios": n}
+    return viol, cov
+
+def both(*fs):
+    def run(tier, seed):
+        viol, cov = [], {"evaluations": 0, "distinct_nontrivial": 0, "traces_validated_against_impl": 0}
+        for f in fs:
+            v, c = f(tier, seed)
+            viol += v
+            for k, x in c.items():
+                if k in ("evaluations", "distinct_nontrivial", "traces_validated_against_impl"):
+                    cov[k] += x
+                else:
+                    cov[k] = x
+        if viol:
+            cov["traces_validated_against_impl"] = 0
+        return viol, cov
+    return run
+
 OOM_SRC = r"""
 // C18, "never frees or loses the old block before diverging": with an allocation-error hook that PANICS instead of
 // aborting (unstable `alloc_error_hook`, compiled with RUSTC_BOOTSTRAP=1), every block a vector owned when a request was
@@ -684,6 +729,8 @@ static TRACK: AtomicBool = AtomicBool::new(false);  // blocks obtained are enter
 static COUNT: AtomicU64 = AtomicU64::new(0);
 static FAIL_AT: AtomicU64 = AtomicU64::new(0);
 static mut TABLE: [usize; 64] = [0; 64];
+static mut PRE: [usize; 2] = [0; 2];                // the blocks the two vectors owned before the operation (followed through reallocs)
+static FREED_PRE: AtomicBool = AtomicBool::new(false); // one of them was handed back while requests could still be refused
 unsafe fn enter(p: usize) { for s in TABLE.iter_mut() { if *s == 0 { *s = p; return; } } }
 unsafe fn leave(p: usize) -> bool { for s in TABLE.iter_mut() { if *s == p { *s = 0; return true; } } false }
 unsafe fn live() -> usize { TABLE.iter().filter(|s| **s != 0).count() }
@@ -699,6 +746,7 @@ unsafe impl GlobalAlloc for A {
     p
   }
   unsafe fn dealloc(&self, p: *mut u8, l: Layout) {
+    if ON.load(SeqCst) { for s in PRE.iter_mut() { if *s == p as usize && *s != 0 { *s = 0; FREED_PRE.store(true, SeqCst); } } }
     leave(p as usize);
     System.dealloc(p, l)
   }
@@ -709,6 +757,7 @@ unsafe impl GlobalAlloc for A {
     }
     let q = System.realloc(p, l, n);
     if !q.is_null() && leave(p as usize) { enter(q as usize); }
+    if !q.is_null() { for s in PRE.iter_mut() { if *s == p as usize && *s != 0 { *s = q as usize; } } }
     q
   }
 }
@@ -719,6 +768,7 @@ impl Drop for E { fn drop(&mut self) { DROPS.fetch_add(1, SeqCst); } }
 impl Clone for E { fn clone(&self) -> E { E(self.0, self.1) } }
 fn filled(n: u64) -> MiniVec<E> { let mut v = MiniVec::new(); for i in 0..n { v.push(E(i, [i, i])); } v.shrink_to_fit(); v }
 type Scen = (&'static str, fn(&mut MiniVec<E>, &mut MiniVec<E>));
+fn block_of(v: &MiniVec<E>) -> usize { if v.capacity() == 0 { 0 } else { v.as_ptr() as usize - 24 } }
 fn scenarios() -> Vec<Scen> {
   vec![
     ("push when full", |v, _| v.push(E(9, [9, 9]))),
@@ -731,6 +781,12 @@ fn scenarios() -> Vec<Scen> {
     ("drain_vec + push", |v, o| { *o = v.drain_vec(); v.push(E(1, [1, 1])); }),
     ("clone", |v, o| { *o = v.clone(); }),
     ("clone_from", |v, o| { o.clone_from(v); }),
+    ("clone_from into a smaller vector", |v, o| { o.truncate(2); o.shrink_to_fit(); o.clone_from(v); }),
+    ("clone_from into a vector with room", |v, o| { o.reserve(8); o.clone_from(v); }),
+    ("insert at the front when full", |v, _| v.insert(0, E(9, [9, 9]))),
+    ("split_off(1)", |v, o| { *o = v.split_off(1); }),
+    ("extend_from_within", |v, _| v.extend_from_within(..)),
+    ("resize_with", |v, _| v.resize_with(20, || E(7, [7, 7]))),
     ("append", |v, o| { let mut t = filled(5); v.append(&mut t); *o = t; }),
     ("extend", |v, _| v.extend((0..9).map(|i| E(i, [i, i])))),
     ("extend_from_slice", |v, _| { let t = filled(6); v.extend_from_slice(&t); }),
@@ -752,7 +808,9 @@ fn main() {
       COUNT.store(0, SeqCst); FAIL_AT.store(0, SeqCst);
       TRACK.store(true, SeqCst);
       let mut v = filled(4);                       // its block is in the table
-      let mut o: MiniVec<E> = MiniVec::new();
+      let mut o: MiniVec<E> = if name.starts_with("clone_from into") { filled(3) } else { MiniVec::new() };
+      unsafe { PRE = [block_of(&v), block_of(&o)]; }
+      FREED_PRE.store(false, SeqCst);
       COUNT.store(0, SeqCst); FAIL_AT.store(k, SeqCst); ON.store(true, SeqCst);
       let r = std::panic::catch_unwind(std::panic::AssertUnwindSafe(|| f(&mut v, &mut o)));
       let refused = !ON.swap(false, SeqCst);
@@ -765,6 +823,10 @@ fn main() {
         bad += 1;
         println!("MISMATCH {} with request no. {} refused (the hook panics, the stack unwinds, every handle is dropped): {} block(s) were never handed back to the allocator: nobody owned them while the operation diverged",
                  name, k, left);
+      }
+      if refused && FREED_PRE.load(SeqCst) {
+        bad += 1;
+        println!("MISMATCH {} with request no. {} refused: a block one of the vectors owned before the operation was handed back to the allocator BEFORE the refused request was made (freed before diverging: with the aborting handler its contents are gone and nothing replaced them)", name, k);
       }
       let _ = r;
     }
